@@ -37,6 +37,29 @@ def _one(args):
     res['funcs'] = len(m.funcs) if m else 0
     res['data'] = len(m.data) if m else 0
     res['rules'] = sorted(set(v[0] for v in viol))
+    # data size / alignment against the C object (self-consistency with the compiler's own sizeof, whose
+    # agreement with the platform ABI is C06's business): only for inputs known to be valid programs
+    if m and not viol and name.startswith(('suite', 'corpus', 'gen', 'self')):
+        names = [d.name for d in m.data if re.fullmatch(r'[A-Za-z_]\w*', d.name)]
+        if names:
+            probe = open(path, 'rb').read() + b'\n' + b''.join(
+                b'unsigned long vf_sz_%s = sizeof(%s); unsigned long vf_al_%s = _Alignof(typeof(%s));\n' % (n.encode(), n.encode(), n.encode(), n.encode()) for n in names)
+            r2 = common.cproc(exe, text=probe, target=target)
+            if r2.status == 0:
+                try:
+                    m2 = qbeil.parse(r2.out)
+                    d2 = {d.name: d for d in m2.data}
+                    sizes = {}
+                    for n in names:
+                        a, b = d2.get('vf_sz_' + n), d2.get('vf_al_' + n)
+                        if a and b:
+                            sizes[n] = (int.from_bytes(qbeil.data_image(a)[0], 'little'), int.from_bytes(qbeil.data_image(b)[0], 'little'))
+                    res['sized'] = len(sizes)
+                    for v in ilcheck.check_module(m, sizes):
+                        if v.rule in ('data-size', 'data-align'):
+                            viol.append((v.rule, repr(v)))
+                except Exception:
+                    pass
     if viol:
         res['verdict'] = 'violation'
         res['viol'] = viol[:10]
@@ -161,6 +184,7 @@ def run(tier):
             ck.distinct.add(r['h'])
         ck.extra['functions_checked'] = ck.extra.get('functions_checked', 0) + r['funcs']
         ck.extra['data_definitions_checked'] = ck.extra.get('data_definitions_checked', 0) + r['data']
+        ck.extra['data_definitions_size_checked'] = ck.extra.get('data_definitions_size_checked', 0) + r.get('sized', 0)
         if r['verdict'] == 'violation':
             key = 'il:' + '+'.join(r['rules'])
             ck.count('violated_rule', key)
